@@ -221,6 +221,44 @@ class PeeringScenario(Scenario):
                     if until < t - 70 and f'ghost-{g}' in status and run:
                         out.append(self.viol(env, 'dead-record-not-cleaned', f"t={t}: the expired foreign record ghost-{g} (dead since {until}) is still there", clause='cleaned'))
         # -- safety over the whole run --
+        # an operator pauses (closes its watch while it keeps running) only for a LIVE peer of higher or equal priority
+        if exact:
+            timeline = [(wr['t'], wr['post']) for wr in w.writes if wr['kind'] == 'clusterkopfpeerings' and wr['post'] is not None]
+            ends: dict[str, float] = {}
+            for t, k, p in env.obs:
+                if k in ('op-stop', 'op-kill'):
+                    ends[p['opid']] = t
+
+            def live_blockers(ident: str, t0: float, t1: float) -> list[str]:
+                found = []
+                for i, (tw, post) in enumerate(timeline):
+                    t_next = timeline[i + 1][0] if i + 1 < len(timeline) else float('inf')
+                    if t_next < t0 or tw > t1:
+                        continue      # this version of the peering object was not current inside the window
+                    for key, r in ((post.get('status') or {}).items()):
+                        if key == ident or not isinstance(r, dict):
+                            continue
+                        try:
+                            seen = (datetime.datetime.fromisoformat(r['lastseen']) - EPOCH).total_seconds()
+                            deadline = seen + int(r.get('lifetime', LIFETIME))
+                            prio = int(r.get('priority', 0))
+                        except Exception:
+                            continue
+                        if prio >= PRIORITIES[ident] and deadline > max(t0, tw):
+                            found.append(key)
+                return found
+            for st in streams:
+                if st.closed_at is None or st.opid is None:
+                    continue
+                ident = st.opid.split('#')[0]
+                if ident not in PRIORITIES or ends.get(st.opid, float('inf')) <= st.closed_at:
+                    continue
+                if st.closed_at >= self.horizon - 1:
+                    continue
+                if not live_blockers(ident, st.closed_at - 1.0, st.closed_at):
+                    out.append(self.viol(env, 'paused-without-live-blocker',
+                                         f"t={st.closed_at}: running operator {st.opid} (priority {PRIORITIES[ident]}) closed its watch although the peering "
+                                         f"object showed no live peer of higher or equal priority", clause='paused-only-for-live-peers'))
         # a paused operator (no watch for > DRAIN seconds) starts no change handler
         for t, k, p in env.obs:
             if k == 'call' and p.get('reason') in ('create', 'update') and p.get('op'):
